@@ -61,7 +61,7 @@ ASSUMPTIONS = [
 PROBES = ["mixed_cell_shapes_2d", "two_subdomains_same_dim_different_mix", "polyhedral_3d", "interface_data", "vector_data", "ge_11_exports", "non_integer_times",
           "times_closer_than_1e-6", "crash_in_times_json", "crash_in_vtu", "crash_in_step_pvd", "crash_in_collecting_pvd", "crash_between_exports", "torn_file",
           "restart_route_pvd", "restart_route_mdg_pvd", "restart_route_vtu", "second_restart", "third_restart", "restart_raised_after_midexport_crash",
-          "continue_after_restart", "crash_during_restart_before_any_output", "data_tuples_not_in_mdg_order", "constants_exported_separately", "stale_output_of_previous_run_in_folder", "io_error_during_export", "rejected_export_in_the_middle_of_a_run", "grid_replaced_between_exports", "interface_grid_changed_in_place", "constant_data_updated_mid_run", "pvd_selection_not_a_prefix", "export_after_rejected_export_raises", "times_to_export_subset", "step_not_exported", "readonly_import_of_older_step", "zero_d_subdomain", "export_after_vtu_route_restart_raises"]
+          "continue_after_restart", "crash_during_restart_before_any_output", "data_tuples_not_in_mdg_order", "constants_exported_separately", "stale_output_of_previous_run_in_folder", "io_error_during_export", "rejected_export_in_the_middle_of_a_run", "grid_replaced_between_exports", "interface_grid_changed_in_place", "constant_data_updated_mid_run", "pvd_selection_not_a_prefix", "export_after_rejected_export_raises", "times_to_export_subset", "step_not_exported", "crash_right_after_export_of_failed_attempt", "readonly_import_of_older_step", "zero_d_subdomain", "export_after_vtu_route_restart_raises"]
 
 KEYS_SD = ["p"]
 
@@ -686,6 +686,13 @@ def run_model_level(ch, tr: Trace, families=("flow",)) -> None:
                 state["crash_after_export"] = None
                 seam.fired.append(("crash", seam.n, "between", "-"))
                 raise SimCrash("crash right after a complete export")
+            if state.get("crash_after_failed_export") and sim.attempt > 0 and sim.converged_iterate is None and state["n_exports_session"] >= 2:
+                # the export just completed is the one after_nonlinear_failure writes for a FAILED attempt (advanced time,
+                # old state, the dt that failed): the process dies right after it, the restart starts from that entry
+                state["crash_after_failed_export"] = False
+                seam.fired.append(("crash", seam.n, "between", "-"))
+                tr.probe("crash_right_after_export_of_failed_attempt")
+                raise SimCrash("crash right after the export of a failed attempt")
 
         sim.export_hook = hook
         with seam:
@@ -698,10 +705,14 @@ def run_model_level(ch, tr: Trace, families=("flow",)) -> None:
                 ch.begin("arm")
                 try:
                     if cycle < max_cycles:
-                        if ch.flag():
+                        mode_ = ch.draw(4)
+                        if mode_ <= 1:
                             seam.arm_crash(seam.n + 1 + ch.draw(500), ch.choice([0.0, 0.5, 1.0]) if torn else None)
-                        else:
+                        elif mode_ == 2:
                             state["crash_after_export"] = ch.rng(1, 6)
+                        else:
+                            state["crash_after_failed_export"] = True
+                            state["crash_after_export"] = ch.rng(4, 9)  # fall-back if no attempt fails
                 finally:
                     ch.end()
                 try:
@@ -737,6 +748,7 @@ def run_model_level(ch, tr: Trace, families=("flow",)) -> None:
                         after_mid = f[2] != "between"
                 seam.plan.clear()
                 state["crash_after_export"] = None
+                state["crash_after_failed_export"] = False
                 if not crashed:
                     break
                 if state["last_complete"] is None:
